@@ -7,6 +7,8 @@ import (
 	"os"
 )
 
+var curSeed uint64
+
 func main() {
 	gen := flag.String("gen", "", "generator name")
 	seed := flag.Uint64("seed", 1, "PRNG seed")
@@ -16,6 +18,7 @@ func main() {
 	w := bufio.NewWriterSize(os.Stdout, 1<<20)
 	defer w.Flush()
 	rng := newPrng(*seed)
+	curSeed = *seed
 	switch *gen {
 	case "escape":
 		genEscape(w, rng, *depth, *n)
